@@ -101,6 +101,8 @@ type appScript struct {
 	ReadEvery  int        `json:"readevery"` // 0: read whenever something happened at this end; >0: only every n ms
 	PauseAfter int        `json:"pause_after,omitempty"`
 	PauseMs    int        `json:"pause_ms,omitempty"`
+	MtuRaiseAfter int     `json:"mtu_raise_after_writes,omitempty"` // after this many writes the application raises the MTU ...
+	MtuRaiseTo    int     `json:"mtu_raise_to,omitempty"`           // ... to this value (queued data was cut for the old MSS)
 	writesFull []appWrite
 }
 
@@ -664,6 +666,12 @@ func (s *simCore) appStep(e *coreEnd, canRead bool) {
 		if k.WaitSnd() >= int(k.snd_wnd) {
 			e.wBlocked++
 			break
+		}
+		if e.app.MtuRaiseAfter > 0 && e.wIdx == e.app.MtuRaiseAfter {
+			e.app.MtuRaiseAfter = 0
+			if k.SetMtu(e.app.MtuRaiseTo) != 0 {
+				s.viol("C10 core: SetMtu refused a larger MTU", "end %s: SetMtu(%d) with mtu %d", e.name, e.app.MtuRaiseTo, k.mtu)
+			}
 		}
 		buf := make([]byte, w.Size)
 		fillContent(e.wStream, e.wOff, buf)
